@@ -49,7 +49,7 @@ def check(prog: Program, tier: str) -> Result:
     _c05._r5_6(prog, _tmp)
     res.adopt(_tmp, {"R5.6"}, "R7.7", "safe mode / preserve only protect the surface if no rule result is replayed from a memo that ignores the preserve set")
     _r7_8(prog, res)
-    res.floors.update({"R7.1": 14, "R7.2": 8, "R7.3": 4, "R7.4": 4, "R7.8": 2})
+    res.floors.update({"R7.1": 14, "R7.2": 8, "R7.3": 4, "R7.4": 5, "R7.8": 2})
     res.analysed.update(stats)
     return res
 
@@ -401,6 +401,27 @@ def _unpacker(prog: Program, res: Result) -> None:
         ok = kind in handled
         res.decide(ok, "R7.4", fn.loc(), fn.fq, f"assignment target kind ast.{kind}",
                    "unpacked" if ok else f"names bound through an ast.{kind} target (e.g. `[a, b] = ..` / `a, *rest = ..`) are not added to preserve in safe mode and get renamed or unbound")
+    # targets nest: `NAME, (MAJOR, MINOR) = ..`, `a, [b, *c] = ..` - the elements of a Tuple / List and the value of a Starred are
+    # targets again, so they must go through the unpacker itself (recursion) or a worklist, not through a test for ast.Name
+    container_kinds = {"Tuple", "List", "Starred"}
+    recursive = [c for c in prog.calls_in(fn) if (lambda r: r and r[0] == "fn" and r[1].key == fn.key)(prog.resolve_call(c.func, fn.mod, fn))]
+    worklist = any(isinstance(w, ast.While) for w in walk_own(fn.node)) and any(
+        isinstance(c, ast.Call) and isinstance(c.func, ast.Attribute) and c.func.attr in ("extend", "append", "appendleft", "extendleft") for c in walk_own(fn.node))
+    fed = set()
+    for c in recursive:
+        for a in c.args:
+            t = norm(a)
+            if t.endswith(".value"):
+                fed.add("Starred")
+            if isinstance(a, ast.Name):
+                for lp in walk_own(fn.node):
+                    if isinstance(lp, (ast.For, ast.AsyncFor)) and isinstance(lp.target, ast.Name) and lp.target.id == a.id and norm(lp.iter).endswith(".elts"):
+                        fed |= {"Tuple", "List"}
+    nests = worklist or container_kinds <= fed
+    res.decide(nests, "R7.4", fn.loc(), fn.fq, "nested assignment targets",
+               "the elements of a Tuple / List target and the value of a Starred target are unpacked again" if nests else
+               f"the elements of {sorted(container_kinds - fed)} targets are not unpacked again: names nested one level deeper (`NAME, (MAJOR, MINOR) = ..`) never reach the "
+               "preserve set of safe mode and are renamed to `_`")
     # iter_assignments covers Assign, AnnAssign, AugAssign
     fn2 = prog.func("parsing", "iter_assignments")
     kinds: Set[str] = set()
